@@ -783,6 +783,9 @@ func (x *Exec) evalQuant(q *EQuant, env *SpecEnv) (Val, error) {
 			sortS = arraySort(vc.ar.IdxSort(), vc.ar.Sort(IntKind{8, false}))
 		case "bseq":
 			sortS = "BSeq"
+		case "str":
+			sortS = "Str"
+			typ = types.Typ[types.String]
 		case "bytes":
 			sortS = "Slice"
 			typ = types.NewSlice(types.Typ[types.Uint8])
@@ -791,7 +794,7 @@ func (x *Exec) evalQuant(q *EQuant, env *SpecEnv) (Val, error) {
 			if !ok {
 				// a named pointer type of the package: treated as reference
 				if env.pkg != nil {
-					tn := strings.TrimPrefix(v.Type, "*")
+					tn := strings.TrimPrefix(strings.TrimPrefix(v.Type, "*"), "ptr_")
 					if obj, ok2 := env.pkg.Scope().Lookup(tn).(*types.TypeName); ok2 {
 						typ = types.NewPointer(obj.Type())
 						sortS = SInt
@@ -1130,6 +1133,22 @@ func (x *Exec) evalCall(c *ECall, env *SpecEnv) (Val, error) {
 			return Val{T: app(vc.sortOf(ty), u, app(SInt, "i-val", v.T)), Typ: ty}, nil
 		}
 		return Val{T: app(SInt, "i-val", v.T), Typ: ty}, nil
+	case "str":
+		// str(bs): string(bs)
+		if err := argN(1); err != nil {
+			return Val{}, err
+		}
+		a, err := x.evalSpec(c.Args[0], env)
+		if err != nil {
+			return Val{}, err
+		}
+		if a.T.Sort == "Str" {
+			return a, nil
+		}
+		if a.T.Sort != "Slice" {
+			return Val{}, fmt.Errorf("str() needs a byte slice")
+		}
+		return Val{T: vc.bytesToStrPure(env.st, a.T), Typ: types.Typ[types.String]}, nil
 	case "bseq":
 		// bseq(array, off, len): abstract byte string held in an array range
 		if err := argN(3); err != nil {
